@@ -4,14 +4,19 @@ From KM Require Import Model.Session Proofs.Session.
 Import ListNotations.
 
 (* For EVERY history (any length, any number of users and sessions, any enrolment `d`, any
-   web-UI mask `w`, any cookies attached in any order, any request made with a verified client
-   certificate of any user and/or while profile writes fail), every cookie the server has issued
-   and every factor bit in its level: that factor was proved for the cookie's own user. *)
+   web-UI mask `w`, any NUMBER of auth_cookie values attached to a request in any order — own and
+   foreign, valid, expired and junk —, any request made with a verified client certificate of any
+   user and/or while profile writes fail), every cookie the server has issued and every factor bit
+   in its level: that factor was verified for the cookie's own user, and not before the session
+   began (the iat claim, which every re-signed cookie keeps): a session gains a factor only by a
+   verification made during that session. *)
 Theorem c05_inv : forall d w ops c f,
-  In c (issued (fst (run (fixed d w) init ops))) -> has (clevel c) f = true ->
-  In (cuser c, f) (proved (fst (run (fixed d w) init ops))).
+  let s := fst (run (fixed d w) init ops) in
+  In c (issued s) -> has (clevel c) f = true ->
+  exists t, (ciat c <= t)%Z /\ In (cuser c, f, t) (proved s).
 Proof.
-  intros d w ops c f Hc Hf. destruct (run_Inv (fixed d w) ops eq_refl eq_refl) as [I1 _]. exact (I1 c Hc f Hf).
+  intros d w ops c f s Hc Hf. destruct (run_Inv (fixed d w) ops eq_refl eq_refl eq_refl) as [I1 _].
+  destruct (I1 c Hc) as [_ J]. exact (J f Hf).
 Qed.
 
 (* ... and an operation whose positive answer is about another user than the one the request is
@@ -20,11 +25,11 @@ Qed.
    changes nothing but the ghost record of the presented certificate, and emits no cookie *)
 Theorem c05_no_cross_user : forall d w ops cert fault o u u',
   let s := fst (run (fixed d w) init ops) in
-  about s o = Some u -> requester (fixed d w) s cert o = Some u' -> u <> u' ->
+  about (fixed d w) s o = Some u -> requester (fixed d w) s cert o = Some u' -> u <> u' ->
   step (fixed d w) s (Req cert fault o) = (present_cert s cert, None).
 Proof.
   intros d w ops cert fault o u u' s Ha Hr Hne. cbn [step].
-  destruct (present_cert_Inv s cert (run_Inv (fixed d w) ops eq_refl eq_refl)) as [HI _].
+  destruct (present_cert_Inv s cert (run_Inv (fixed d w) ops eq_refl eq_refl eq_refl)) as [HI _].
   apply (cross_user_refused (fixed d w) cert fault (present_cert s cert) o u u' eq_refl HI); [| |exact Hne].
   - rewrite about_present. exact Ha.
   - rewrite requester_present. exact Hr.
@@ -48,12 +53,19 @@ Qed.
 (* expired values never work, in any state, however the request is authenticated *)
 Theorem c05_expired : forall d w cert fault s o,
   expired (fixed d w) s cert o = true -> step_req (fixed d w) cert fault s o = (s, None).
-Proof. intros d w cert fault s o. apply expired_refused. reflexivity. Qed.
+Proof. intros d w cert fault s o. apply expired_refused; reflexivity. Qed.
+
+(* an expired session cookie never works: whatever else is attached, if the cookie checkAuth looks at
+   (the last one) is past its exp claim, a request without client certificate changes nothing *)
+Theorem c05_cookie_expired : forall d w fault s o cs c,
+  cookies_of o = Some cs -> pick (fixed d w) (attached s cs) = Some c -> (cexp c <= now s)%Z ->
+  step_req (fixed d w) None fault s o = (s, None).
+Proof. intros d w fault s o cs c. apply expired_cookie_refused. Qed.
 
 (* the statement is false of the handlers as they were *)
 Theorem c05_old_poll_refuted :
   let s := fst (run (cfg_with false true true true) init w_poll) in
-  exists c, In c (issued s) /\ cuser c = 2%N /\ has (clevel c) F_VIP = true /\ ~ In (2%N, F_VIP) (proved s).
+  exists c, In c (issued s) /\ cuser c = 2%N /\ has (clevel c) F_VIP = true /\ forall t, ~ In (2%N, F_VIP, t) (proved s).
 Proof. exact old_poll_cross_user. Qed.
 
 Theorem c05_old_totp_replay_refuted :
@@ -68,15 +80,35 @@ Theorem c05_old_challenge_refuted :
   NoDup (spent (fst (run (cfg_with true true true true) init w_chal_twice))).
 Proof. exact old_challenge. Qed.
 
+(* a push transaction lives two minutes (ExpiresAt); only the cleanup sweep enforced that, so an
+   approved push polled five minutes after its start still raised the level *)
+Theorem c05_old_vip_expiry_refuted :
+  nth 4 (snd (run (cfg_vip_expiry false) init w_vip_exp)) None <> None /\
+  nth 4 (snd (run (cfg_vip_expiry true) init w_vip_exp)) None = None.
+Proof. exact old_vip_expiry. Qed.
+
 (* updateAuthCookieAuthlevel as it was: [Login bob; IssueOtp alice; Bootstrap authenticated by
    alice's client certificate with her own OTP and bob's cookie attached] gives bob's session the
    bootstrap and certificate factors alice proved; the repaired upgrade emits nothing *)
 Theorem c05_old_cert_cookie_refuted :
   let s := fst (run cfg_old_upgrade init w_cert) in
   (exists c, In c (issued s) /\ cuser c = 2%N /\ has (clevel c) F_BOOT = true /\ has (clevel c) F_X509 = true /\
-             ~ In (2%N, F_BOOT) (proved s) /\ ~ In (2%N, F_X509) (proved s)) /\
+             (forall t, ~ In (2%N, F_BOOT, t) (proved s)) /\ (forall t, ~ In (2%N, F_X509, t) (proved s))) /\
   nth 2 (snd (run cfg_new_upgrade init w_cert)) None = None.
 Proof. exact old_cert_cookie. Qed.
+
+(* which of several auth_cookie values is authoritative matters: an upgrade that re-signs the FIRST
+   one while checkAuth authenticates the LAST (same user, so the owner test passes) hands the factors
+   of an old session to a newer one — [Login; Totp; an hour passes; Login; hardware token with
+   (new cookie, old cookie) attached] yields a cookie with iat = the second login that carries the
+   TOTP bit, verified only before that instant; re-signing the last one keeps iat = the first login *)
+Theorem c05_first_cookie_refuted :
+  (let s := fst (run (cfg_first_cookie false) init w_first) in
+   exists c, In c (issued s) /\ cuser c = 1%N /\ has (clevel c) F_TOTP = true /\ ciat c = 6600%Z /\
+             forall t, In (1%N, F_TOTP, t) (proved s) -> (t < ciat c)%Z) /\
+  (let s := fst (run (cfg_first_cookie true) init w_first) in
+   exists c, nth 6 (snd (run (cfg_first_cookie true) init w_first)) None = Some c /\ ciat c = 3000%Z).
+Proof. exact old_first_cookie. Qed.
 
 (* non-vacuity: a complete two-factor history; the TOTP value stops working; the other user's
    session attached FIRST is not the one that is upgraded; a certificate-authenticated upgrade of
